@@ -1,0 +1,18 @@
+//go:build verif
+
+package pvss
+
+import (
+	"go.dedis.ch/kyber/v4"
+	"go.dedis.ch/kyber/v4/share"
+)
+
+// VerifComputeGlobalChallenge exposes computeGlobalChallenge to the verification harness.
+func VerifComputeGlobalChallenge(suite Suite, n uint32, commit *share.PubPoly, encShares []*PubVerShare) (kyber.Scalar, error) {
+	return computeGlobalChallenge(suite, n, commit, encShares)
+}
+
+// VerifComputeCommitments exposes computeCommitments to the verification harness.
+func VerifComputeCommitments(suite Suite, n uint32, polyComs []kyber.Point) []kyber.Point {
+	return computeCommitments(suite, n, polyComs)
+}
